@@ -96,9 +96,36 @@ def gen_case(seed):
     # the variables of port env one level further down: ('env', 'sub', var)
     # (own stream: the cases of earlier seeds keep their shape)
     deep = Rng(derive(seed, 'deep')).chance(30)
+    # a caller may list one dictionary object at two times (a recurring change):
+    # one more event, at a time of its own, whose change IS the change object of
+    # an earlier-listed event (own stream again; pairs of listing indices)
+    alias = []
+    ra = Rng(derive(seed, 'alias'))
+    if ra.chance(30):
+        taken = set(t for t, _ in events)
+        # prefer an event that shares its time with a later-listed one
+        first_of_dup = [i for i, (t, _) in enumerate(events)
+                        if any(t2 == t for t2, _ in events[i + 1:]) and
+                        not any(t2 == t for t2, _ in events[:i])]
+        j = ra.pick(first_of_dup) if (first_of_dup and ra.chance(80)) else ra.below(len(events))
+        t_new = None
+        for _ in range(10):
+            c = ra.rint(0, horizon) / 8.0
+            if c not in taken:
+                t_new = c
+                break
+        if t_new is not None:
+            ev_new = [t_new, copy.deepcopy(events[j][1])]
+            if swarm['shuffle']:
+                pos = ra.rint(0, len(events))
+            else:
+                pos = len([1 for t, _ in events if t <= t_new])
+            events = events[:pos] + [ev_new] + events[pos:]
+            alias.append([j + 1 if pos <= j else j, pos])
     return {
         'profile': PROFILE, 'seed': seed,
         'opts': {'unit': UNIT, 'precision': None, 't0': 0, 'helper': swarm['helper'], 'deep_env': deep},
+        'alias': alias,
         'timeline': events, 'ts_units': ts_units, 'ports': ports, 'noise': noise, 'ops': ops,
         'swarm': sorted(k for k, v in swarm.items() if v),
     }
@@ -123,6 +150,11 @@ def build(case):
     deep = bool(case['opts'].get('deep_env'))
     timeline = [(t, {_path(k, deep): copy.deepcopy(v) for k, v in ch.items()})
                 for t, ch in case['timeline']]
+    for j, k in case.get('alias') or []:
+        # (a shrunk case may have lost one of the two)
+        if j < len(timeline) and k < len(timeline) and j != k and \
+                case['timeline'][j][1] == case['timeline'][k][1]:
+            timeline[k] = (timeline[k][0], timeline[j][1])
     params = {'time_step': tval(case['ts_units'], UNIT), 'timeline': timeline}
     tl = TLProcClass()(params)
     processes['timeline'] = tl
@@ -178,6 +210,8 @@ def check(case, run, stats=None):
     deep = bool(case['opts'].get('deep_env'))
     if deep:
         probes['nested-event-paths'] = 1
+    if case.get('alias'):
+        probes['change-object-listed-twice'] = 1
     if run.budget_hit:
         return [V('C03', 'C03.no-termination', 'timeline', 'budget exceeded')]
     if run.exc is not None:
